@@ -290,6 +290,10 @@ def run(case: dict, *, count_only: bool = False) -> Obs:
 
             dev.handlers[11] = streamer
             env.spawn(f"list{idx}", cli.list_entities_services())
+        elif act == "big_request":
+            # an awaited request with an unusually large (legal) payload: over Noise it may not fit a frame -- however
+            # the library deals with that, the caller gets a result or an error of the library's hierarchy
+            env.spawn(f"big{idx}", cli.bluetooth_gatt_write(1, 1, bytes(int(ev.get("size", 70000))), True, timeout=10.0))
         elif act == "cancel_disc":
             # the caller of a pending graceful disconnect() gives up (wait_for / task cancellation)
             pend = [n for n, t in env.tasks if n.startswith("disconnect") and not t.done()]
